@@ -9,6 +9,7 @@ for d in seeded/C*/; do
   d=${d%/}
   [ -f $d/patch.diff ] || continue
   if grep -q '"superseded_by_fix"' $d/meta.json 2>/dev/null; then echo "$(basename $d): skipped (superseded by a fix)" >> "$out"; continue; fi
+  if grep -q '"no_longer_applies"' $d/meta.json 2>/dev/null; then echo "$(basename $d): skipped (conflicts with a later fix)" >> "$out"; continue; fi
   id=$(basename $d | cut -c1-3)
   # a seed whose effect belongs to another property's domain names the check that decides it (meta.json: checked_by)
   other=$(python3 -c "import json,sys;print(json.load(open(sys.argv[1])).get('checked_by',''))" $d/meta.json 2>/dev/null)
